@@ -8,6 +8,14 @@ BASELINE_OFF = ("cd /repo && export PATH=/opt/veriftools/go1.26.8/bin:$PATH GOFL
 TECH = "contract-based deductive verification: WP-style VCs over go/ssa of the real code, discharged by z3/cvc5"
 
 CLAIMED = {
+    "C18": dict(cat="proof", ref="DESIGN.md §4.18",
+        text=("Unbounded per-call proof that MemoryStorage and the unstable log behave like an abstract list of entries with a compacted prefix: representation "
+              "invariants are preserved by every operation and every query/update satisfies a functional postcondition over the abstract view (exact error ranges, "
+              "term-at, size-limited non-empty windows, append/overwrite-from-index, compaction, ABA-safe persistence acknowledgements, no overwritten cell is exposed). "
+              "Composes over arbitrary operation sequences by induction on the sequence. Found and fixed defect F-1 (Term panicking for i-offset >= 2^63)."),
+        note=("Trusted: govc semantics, SMT solvers; proto.Clone modelled as fresh deep copy, proto.Size as uninterpreted function; sync.Mutex ignored (single-threaded); "
+              "A-arith (indexes + lengths < 2^63, slice windows <= 2^31). The combined raftLog view (log.go) is covered where its functions are under contract; "
+              "the Storage interface seen from raftLog is an assumed contract proved for MemoryStorage only.")),
     "C12": dict(cat="proof", ref="DESIGN.md §4.12",
         text=("Unbounded proof that the real quorum functions compute exactly what the property states, with the specification written in counting form "
               "over the voter set: VoteResult == Won iff #yes >= n/2+1, Lost iff #yes + #missing < n/2+1, Pending otherwise (empty set wins); "
